@@ -110,6 +110,14 @@ PROPS["C06"] = {
              "distinct = distinct case descriptors; all count as non-trivial"),
     "trusted_base": PKG_TB + ["coq/Model/OutputProgs.v: the packagers' output stages transcribed as writer-stack programs (modelled, not verified); the number of writes zstd issues is a quantified parameter"], "assumptions": [],
 }
+PROPS["C07"] = {
+    "level": "proof", "harness": "C07", "driver": "C07", "shrink_field": None, "exhaustive": False,
+    "rule": ("cases = generated configurations within the premise (package mtime and rpm build host fixed, unsigned; six entries in every map that reaches the output; trees, globs, per-entry mtimes, all compressors the generator picks), each built for all five formats: "
+             "first pass; more than 1.2 s later again twice in-process, once in ANOTHER process under a rotating timezone (UTC+14 .. UTC-8) and GOMAXPROCS in {1,2,3,7,16}, and once with every file reference made absolute - all compared byte for byte; "
+             "every timestamp decoded at every nesting level (ar, outer/control/data tar members, gzip headers, rpm build and file times, archlinux builddate, .MTREE) against {package mtime, declared entry mtimes, on-disk mtimes of the source trees}. "
+             "distinct = distinct configurations; all count as non-trivial"),
+    "trusted_base": PKG_TB + ["translators/nondet.go: syntactic scan for clock / host / process / environment / CPU-count / randomness reads and map iterations (map-typed expressions recognised through declarations, not through type checking)"], "assumptions": [],
+}
 PROPS["C11"] = {
     "level": "proof", "harness": "C11", "driver": "C11", "shrink_field": "ops", "exhaustive": False,
     "rule": ("cases = histories of {validate, file-name(f), package(f)} on ONE parsed configuration: every ordered pair (a, b, a) of the 11 operations (121; quick: a seeded third), all 120 orders of the five packagings (quick: a seeded eighth), "
